@@ -16,7 +16,7 @@ for f in os.listdir(src):
 cmd = re.search(r"cmd=(.*)", res).group(1).strip()
 d = re.search(r"dir=(\S+)", res).group(1)
 meta = {
-    "id": f"{ID}-{X}", "property": ID,
+    "id": f"{ID}-{X}", "property": ID[:3],
     "origin": "fresh sub-agent given only the property text and a scratch worktree of /repo (HEAD with the fix: commits); nothing from /verif",
     "breaks_and_needs": needs,
     "demo": {"copy_into": d, "command": cmd},
